@@ -134,6 +134,7 @@ def run(ctx, ck) -> None:
     ck.expect('T4', ok_r and s is not None and isinstance(s.value, Lin) and s.value.k == 'Perm', mvn or rt.node,
               'the reshape dual maps each leaf back to the shape of the matching leaf of its own output structure (= the operand\'s input structure); Perm kind',
               f'ReshapeTransposeOperator.mv does not reshape every leaf to the operand\'s input leaf shape: {why}', instance='reshape dual')
+    _t5(ctx, ck)
     tt = table.by_name('ToastObservationMatrixTransposeOperator')
     tm = tt.own.get('mv')
     t = _ret(tm) if isinstance(tm, ast.FunctionDef) else None
@@ -145,6 +146,19 @@ def run(ctx, ck) -> None:
     wantf = ('binop', '@', ('attr', ('var', fwd.args.args[0].arg), 'matrix'), ('var', fwd.args.args[1].arg)) if isinstance(fwd, ast.FunctionDef) else None
     ck.expect('T4', t is not None and t == want and tf == wantf, tm or tt.node, 'the dual applies the transposed matrix field of the same operand that the forward mv applies',
               f'forward mv is {show(tf)}, dual mv is {show(t)}', instance='observation matrix dual')
+
+
+def _t5(ctx, ck) -> None:
+    """T5: the rewritten-subscript transpose of the einsum operator refuses what it cannot transpose (shared with C14)."""
+    from . import c14
+
+    sub = type(ck)(ck.pid)
+    c14.run(ctx, sub)
+    for o in sub.obs:
+        if o.rule.endswith(('E2', 'E3', 'E4')):
+            o.rule = f'{ck.pid}.T5'
+            ck.obs.append(o)
+    ck.floor('T5', sum(1 for o in ck.obs if o.rule.endswith('T5')), 8, 'einsum transpose obligations')
 
 
 def _ret(fn):
